@@ -108,6 +108,10 @@ func runLate(c *sup.Child, b sup.Batch) {
 			runRefused(c, idx)
 			continue
 		}
+		if idx%6 == 3 {
+			runReader(c, idx)
+			continue
+		}
 		rng := c.Rand(idx)
 		l := &lateRun{gate: make(chan struct{}), lateFails: rng.Intn(2) == 0, work: 1 + rng.Intn(40)}
 		desc := map[string]any{"kind": "late", "late_task_fails": l.lateFails, "work_rounds": l.work}
